@@ -69,6 +69,18 @@ class N3(NamedTuple):
     f_a: object
     f_b: object
     f_c: object
+class _Omitted:
+    "default of the optional record fields: a field the call does not bind is not part of the lowered dictionary"
+OMITTED = _Omitted()
+@dataclass
+class Q3:
+    f_a: object
+    f_b: object = OMITTED
+    f_c: object = OMITTED
+class QN3(NamedTuple):
+    f_a: object
+    f_b: object = OMITTED
+    f_c: object = OMITTED
 def _parse(text):
     return _ast.parse(text).body[0].value
 '''
@@ -253,7 +265,7 @@ def check(case) -> Result:
     feats = []
     if "K1" in user_part or "K2" in user_part or "hscale(" in user_part or "hadd(" in user_part or "hsecond(" in user_part:
         feats.append("capture/helper")
-    if " for " in user_part or "R1(" in user_part or "R2(" in user_part or "R3(" in user_part or "N1(" in user_part or "N2(" in user_part or "N3(" in user_part:
+    if " for " in user_part or "R1(" in user_part or "R2(" in user_part or "R3(" in user_part or "N1(" in user_part or "N2(" in user_part or "N3(" in user_part or "Q3(" in user_part or "QN3(" in user_part:
         feats.append("sugar")
     if case["typed"] and any(x in user_part for x in (".jets()", ".jets(cut", ".trks()", ".scaled()", ".scaled(off", "jets('b')")):
         feats.append("typed-default")
